@@ -110,3 +110,18 @@ package mod
 //@   in ~/mod
 //@   infunc mod\.Apply\$3$
 //@   requires rewritten-layer-has-its-diff-id: $rawDigTaken ==> $ucDigTaken && caller.dl.ucDigest == $ucDig
+
+// ---- C13: rebase keeps one diff-id per layer ----
+// The rebase step replaces the layers of the old base by those of the new base in three parallel
+// lists (manifest layers, config history, rootfs.diff_ids). For the result to stay well-formed the
+// number of diff-ids must change exactly as the number of layers does: what is cut from diff_ids is
+// the old base's share, what is prepended is the new base's (both validated against their layer
+// lists just before). Stated where the rewritten config is stored; $ret(GetLayers__3) and
+// $ret(GetConfig__6) are the image's own layer list and config as read by the step (the third /
+// sixth call of that name in the closure).
+//@ callsite (*~/types/blob.BOCIConfig).SetConfig(image)
+//@   prop C13
+//@   name SetConfig/rebase
+//@   in ~/mod
+//@   infunc rebaseAddStep\$1$
+//@   requires diff-ids-change-as-the-layers-do: len(image.RootFS.DiffIDs) - len($ret(GetConfig__6, 0).RootFS.DiffIDs) == len(caller.layers) - len($ret(GetLayers__3, 0))
